@@ -88,7 +88,7 @@ TInit ==
   /\ st = [u \in Uploads |-> "NONE"]
   /\ order = <<>>
   /\ ready = <<>>
-  /\ mq = 0 /\ mpc = "waiting" /\ flags = {}
+  /\ mq = 0 /\ mpc = "waiting" /\ flags = {} /\ managed = slots
   /\ grantLim = 0
   /\ slotLeft = 0 /\ attrLeft = 0 /\ lifeLeft = 0
   /\ now = Traces[tid][1].t
@@ -104,7 +104,9 @@ IsEv(e) == l <= Len(T) /\ Rec.ev = e
 
 \* Virtual time never runs backwards, and it does not advance while a hand-out has not been followed
 \* by its starts (the first step of a created task is already in the ready queue).
-TimeOK(t) == t >= now /\ (t > now => NumTasks(ready) = 0)
+\* Time advances in a step of its own (TAdvance), so that a stall is judged at the new time BEFORE the event at that
+\* time can end it.
+TimeOK(t) == t = now
 
 \* stall bookkeeping: since when has some upload been startable, and which kind of event made it so
 \* an upload whose abort / pause is under way is no candidate
@@ -241,6 +243,13 @@ TGrant ==
   /\ UNCHANGED <<attrs, know, st, order, mgmt, tail, budgets, tid, l, reqSeen, leaving, why, marks>>
   /\ Stall("grant")
 
+\* silent: virtual time moves on to the time stamp of the next record
+TAdvance ==
+  /\ l <= Len(T)
+  /\ Rec.t > now /\ NumTasks(ready) = 0
+  /\ now' = Rec.t
+  /\ UNCHANGED <<vars, tid, l, reqSeen, leaving, stallSince, cause, why, culprit, marks>>
+
 Done ==
   /\ l = Len(T) + 1
   /\ NumTasks(ready) = 0
@@ -250,7 +259,7 @@ Done ==
 
 Finished == l = Len(T) + 2 /\ UNCHANGED tvars
 
-TNext == TSt \/ TAttr \/ TTold \/ TForget \/ TCall \/ TRet \/ TReq \/ TEnd \/ TGrant \/ Done \/ Finished
+TNext == TAdvance \/ TSt \/ TAttr \/ TTold \/ TForget \/ TCall \/ TRet \/ TReq \/ TEnd \/ TGrant \/ Done \/ Finished
 
 TSpec == TInit /\ [][TNext]_tvars
 
